@@ -620,3 +620,64 @@ def run_capi(cfg, ops, chdir, hook=None):
     if not closed:
         lib.digital_rf_close_write_hdf5(obj)
     return reports
+
+
+# ------------------------------------------------------------------------------- replay
+
+def cfg_from_dict(d):
+    dt = np.dtype(d["dtype"])
+    order = ">" if dt.byteorder == ">" else "<"
+    return Cfg(d["n"], d["d"], d["sc"], d["fc"], d["start"], d["cont"], d.get("comp", 0), d.get("cksum", False),
+               dt.kind, dt.itemsize, order, d.get("is_complex", False), d.get("nsub", 1))
+
+
+def replay(res, rp):
+    """re-run the history of a replay file on the implementation and on the model; print both and
+    the Spec; exit code 1 if they still differ from each other or from the Spec"""
+    common.use_impl()
+    inp = rp.get("input") or {}
+    if "cfg" not in inp or "ops" not in inp:
+        print("replay: this file has no writer history; input was:", json_dumps(inp)[:2000])
+        return 0
+    cfg = cfg_from_dict(inp["cfg"])
+    ops = [tuple(o) for o in inp["ops"]]
+    work = common.scratch_dir()
+    chdir = os.path.join(work, "ch")
+    bad = 0
+    if inp.get("api") == "C":
+        reports = run_capi(cfg, ops, chdir)
+    else:
+        reports, w = run_impl(cfg, ops, chdir)
+        try:
+            w.close()
+        except Exception:  # noqa
+            pass
+    files = dump_files(chdir)
+    out = common.run_model("writer", [encode_case(cfg, ops, detect_gaprule(res))])[0]
+    mrep, mfiles = parse_model(out, len(ops))
+    print("config:", cfg.as_dict())
+    for j, (op, ri, rm) in enumerate(zip(ops, reports, mrep)):
+        rm2 = [rm[0], 0] + rm[2:] if rm[0] != 0 else rm
+        same = (ri[:5] == rm2[:5]) if inp.get("api") != "C" else (ri[0] == rm[0] and ri[5] == rm[5])
+        print("call %d %r -> implementation %r  model %r %s" % (j, op, ri, rm2, "" if same else "  <-- DIFFER"))
+        bad += 0 if same else 1
+    if inp.get("api") != "C":
+        diff = compare_files(cfg, mfiles, files)
+        print("files: implementation", [(f["subdir"], f["name"], f["rows"]) for f in files])
+        print("files: model         ", [(f["ms"], f["tmp"], f["rows"]) for f in sorted(mfiles, key=lambda x: x["ms"])])
+        if diff:
+            print("DIFFER:", diff)
+            bad += 1
+        mis = misplaced_files(cfg, files)
+        if mis:
+            print("MISPLACED:", mis)
+            bad += 1
+        m = abs_of_history(cfg, ops, reports)
+        print("Spec runs:", [(a, len(t)) for a, t in runs_of(expected_with_fill(cfg, m))])
+    print("replay verdict:", "STILL VIOLATING" if bad else "no longer violating")
+    return 1 if bad else 0
+
+
+def json_dumps(x):
+    import json
+    return json.dumps(x, default=str)
